@@ -55,4 +55,35 @@ PROPS = {
             "unconfirmed, not reported",
         ],
     ),
+    "C05": dict(
+        rule="a case is one program mixing `,` `;` and parentheses: every string over { , ; ( ) e } up to the length "
+             "bound with e instantiated by a literal / variable / assignment / recording call, every A16 token "
+             "sequence containing a separator, and random nested sequence programs; for well-formed ones the tree "
+             "must equal the reference chain-of-tuples AST and value, final context and ordered effect log must "
+             "equal the reference evaluator's; non-trivial = classified well-formed; distinct = distinct source texts",
+        assumptions=COMMON,
+    ),
+    "C08": dict(
+        rule="a case is one program whose leaves have observable effects (recording user functions t/b/s/fl, failing "
+             "calls, unknown variables, assignments): all programs with <= 3 operator nodes (exhaustive) and random "
+             "programs to depth 10 with planted failures, each from a precompiled and a string mutable entry point on "
+             "a RecordingContext; the triple (result, final context, ordered log of user-function calls and set_value "
+             "attempts) must equal the reference interpreter's, and the H2 hook trace must satisfy the schedule "
+             "specification (children once, left to right, then apply; stop in the failing application); "
+             "non-trivial = the reference claims the program; distinct = distinct (source, initial context)",
+        assumptions=COMMON + [
+            "not generated: `x op= e` whose e assigns x (two documented readings differ)",
+            "get_value reads are logged but not order-compared with effects",
+        ],
+    ),
+    "C11": dict(
+        rule="a case is one (program, context) pair from the C08 corpus; it is evaluated immutably (precompiled and "
+             "string form) and mutably on clones of the same context; the immutable outcome must equal the reference "
+             "projection (ContextNotMutable iff an assignment is applied before finishing or failing, else exactly "
+             "the mutable result), the context must be observably unchanged with no set_value call, the H2 immutable "
+             "schedule must be a prefix of the mutable one; also a default-set_value context through the mutable "
+             "path and both empty contexts; non-trivial = the reference claims the program; distinct = distinct "
+             "(source, initial context)",
+        assumptions=COMMON,
+    ),
 }
